@@ -212,6 +212,20 @@ func c17Scenarios(tier string) []engine.Scenario {
 					}, ""))
 				}
 			}
+			if s.Cfg.JSON {
+				// a client that sends the remember flag as a JSON boolean (the reader wants strings)
+				a = append(a, flows.A("login(B1,u1,pw:cur,rm=json-bool)", func(s *world.Stack, _ *world.World) world.Req {
+					r := flows.Login(s, b, U1, P1, false)
+					r.Form, r.RawBody = nil, `{"email":"`+U1+`","password":"`+P1+`","rm":true}`
+					r.Tag.Note = "pw:cur,json-bool"
+					return r
+				}, ""))
+				a = append(a, flows.A("register(B2,u3,json-number)", func(s *world.Stack, _ *world.World) world.Req {
+					r := flows.Register(s, "B2", map[string]string{"email": U3, "password": P3})
+					r.Form, r.RawBody = nil, `{"email":"`+U3+`","password":"`+P3+`","confirm_password":"`+P3+`","age":42}`
+					return r
+				}, ""))
+			}
 			a = append(a, flows.A("login(B2,u2,pw:cur)", func(s *world.Stack, _ *world.World) world.Req { return flows.Login(s, "B2", U2, P2, false) }, ""))
 			a = append(a, twofaValidateActs(s, w, "B2", []string{U1, U2}, []string{N1}, false)...)
 			a = append(a, simple("otp-add(B1)", func(s *world.Stack) world.Req { return flows.OTPAdd(s, b) }))
